@@ -48,6 +48,9 @@ def generate(prop, rng):
         "jobs": rng.choice([1, 2, None]),
         "reflink": gen.weighted(rng, [(6, "enotsup"), (2, "nocow"), (2, "cow")]),
         "tick_ns": 1_000_000,
+        # how the mapping is registered: parents first through add_*, nested one-role
+        # prefixes before their parent's roles, or StorageInfo records assigned directly
+        "map_order": rng.choice(["root_first", "nested_first", "direct"]),
     }
     if placement == "per_output":
         cfg["assign"] = [[rng.choice(["C1", "C2"]), rng.choice(["R1", "R2"])] for _ in outs]
@@ -103,7 +106,7 @@ def simplify(sc):
             c = copy.deepcopy(sc)
             c[k] = None
             yield c
-    simple = {"remote_index": False, "jobs": 1, "reflink": "enotsup", "remote_kind": "generic"}
+    simple = {"remote_index": False, "jobs": 1, "reflink": "enotsup", "remote_kind": "generic", "map_order": "root_first"}
     for k, v in simple.items():
         if sc["cfg"].get(k) != v:
             c = copy.deepcopy(sc)
@@ -234,11 +237,33 @@ def execute(sc, ctx):
                 p = o["key"][:i]
                 if p not in idx:
                     idx[p] = DataIndexEntry(key=p, meta=Meta(isdir=True), loaded=True)
-        for p, v in smap.items():
+        order = cfg.get("map_order", "root_first")
+        if order == "direct":
+            from dvc_data.index import StorageInfo
+
+            for p, v in smap.items():
+                idx.storage_map[p] = StorageInfo(
+                    cache=ObjectStorage(p, cache_odb(v["cache"])) if v["cache"] else None,
+                    remote=ObjectStorage(p, remote_odb(v["remote"])) if v["remote"] else None,
+                )
+            return idx
+        prefixes = sorted(smap, key=len, reverse=(order == "nested_first"))
+        calls = []
+        for p in prefixes:
+            v = smap[p]
             if v["cache"]:
-                idx.storage_map.add_cache(ObjectStorage(p, cache_odb(v["cache"])))
+                calls.append(("cache", p, v["cache"]))
             if v["remote"]:
-                idx.storage_map.add_remote(ObjectStorage(p, remote_odb(v["remote"])))
+                calls.append(("remote", p, v["remote"]))
+        if order == "nested_first":
+            # all cache registrations first, remotes last (a nested cache-only prefix is
+            # then registered before its parent's remote)
+            calls.sort(key=lambda c: (c[0] != "cache", -len(c[1])))
+        for role, p, name in calls:
+            if role == "cache":
+                idx.storage_map.add_cache(ObjectStorage(p, cache_odb(name)))
+            else:
+                idx.storage_map.add_remote(ObjectStorage(p, remote_odb(name)))
         return idx
 
     def listing(name, kind):
